@@ -1,5 +1,6 @@
 #!/bin/bash
-# usage: benign_check.sh <PROP e.g. C09> <A|B|C> [extra check ids]
+# usage: [BENIGN_ROUND=2] benign_check.sh <PROP e.g. C09> <A|B|C> [extra check ids]
+#        round 2 reads /tmp/benign2-<prop>/<letter> and stores under benign/<PROP>-2<letter>
 # A property-preserving change delivered by a sub-agent in /tmp/benign-<prop>/<letter>/patch.diff is applied to a
 # scratch worktree of /repo HEAD; build (with and without the verif tag) and the pinned suite must pass; then
 # the quick checks of the property itself and of every property anchored in a file the patch touches must
@@ -7,8 +8,8 @@
 export GOFLAGS=-mod=mod GOPROXY=off GOSUMDB=off GOTOOLCHAIN=local
 PROP=$1; L=$2; shift 2; EXTRA=$@
 prop=$(echo $PROP | tr A-Z a-z)
-SRC=/tmp/benign-$prop/$L
-DST=/verif/benign/$PROP-$L
+R=${BENIGN_ROUND:-1}
+if [ "$R" = "1" ]; then SRC=/tmp/benign-$prop/$L; DST=/verif/benign/$PROP-$L; else SRC=/tmp/benign$R-$prop/$L; DST=/verif/benign/$PROP-$R$L; fi
 [ -f $SRC/patch.diff ] || { echo "no patch in $SRC"; exit 9; }
 mkdir -p $DST; cp $SRC/patch.diff $DST/; cp $SRC/README.md $DST/ 2>/dev/null
 CHECKS=$(python3 - "$PROP" "$DST/patch.diff" $EXTRA <<'PY'
@@ -46,7 +47,8 @@ import json,sys,re
 prop,l,dst,resf,b,bv,s=sys.argv[1:8]
 lines=[x for x in open(resf).read().strip().split("\n") if x]
 alarms=[re.match(r'check=(C\d+)',x).group(1) for x in lines if ' exit=0 ' not in x+' ']
-meta={"property":prop,"id":prop+"-"+l,"kind":"property-preserving change (must NOT be flagged)",
+import os
+meta={"property":prop,"id":os.path.basename(dst),"kind":"property-preserving change (must NOT be flagged)",
  "source":"independent sub-agent given only the property text and its own worktree",
  "confirmed":{"compiles":b=="0","compiles_with_verif_tag":bv=="0","pinned_suite_passes_with_change":s=="0"},
  "checks_run":lines,"alarms":alarms}
